@@ -61,8 +61,8 @@ def plan(tier, seed, excl):
     q = tier == 'quick'
     t = [('catalogue-scalars', {'ver': v}) for v in ('2.0', '3.0')]
     t += [('catalogue-grids', {'shard': i, 'of': 2}) for i in range(2)]
-    t += [('scalars', {'shard': i, 'n': 3000 if q else 80000}) for i in range(6)]
-    t += [('grids', {'shard': i, 'n': 1200 if q else 40000}) for i in range(16)]
+    t += [('scalars', {'shard': i, 'n': 6000 if q else 80000}) for i in range(6)]
+    t += [('grids', {'shard': i, 'n': 2500 if q else 40000}) for i in range(16)]
     return t
 
 
